@@ -189,6 +189,26 @@ var (
 	}
 )
 
+type heldPreview struct {
+	b   []byte
+	sum string
+}
+
+var heldPrev []heldPreview
+
+// checkHeldPreviews re-digests every preview image returned earlier: a returned result must not change.
+func checkHeldPreviews() (altered string) {
+	heldMu.Lock()
+	defer heldMu.Unlock()
+	for i := range heldPrev {
+		if now := fmt.Sprint(digest(heldPrev[i].b)["sha1"]); now != heldPrev[i].sum {
+			altered = fmt.Sprintf("a preview image (%d bytes) returned %d calls ago now has other contents", len(heldPrev[i].b), len(heldPrev)-i)
+			heldPrev[i].sum = now
+		}
+	}
+	return
+}
+
 func holdExif(e exif2.Exif) (altered string) {
 	heldMu.Lock()
 	defer heldMu.Unlock()
@@ -243,6 +263,28 @@ func init() {
 		res := map[string]interface{}{"f": FlatExif(e)}
 		if alt := holdExif(e); alt != "" {
 			res["altered"] = alt
+		}
+		if alt := checkHeldPreviews(); alt != "" {
+			res["altered"] = alt
+		}
+		JSON(obs, res)
+	})
+	// prevhold: imagemeta.PreviewCR3, keeping the returned bytes alive; every later callhold / prevhold looks at them again
+	Register("prevhold", func(op *core.Op, obs *core.Obs) {
+		sr := NewSReader(op)
+		b, err := imagemeta.PreviewCR3(sr)
+		SetErr(obs, err, callSentinels)
+		res := map[string]interface{}{"prev": digest(b)}
+		if alt := checkHeldPreviews(); alt != "" {
+			res["altered"] = alt
+		}
+		if len(b) > 0 {
+			heldMu.Lock()
+			heldPrev = append(heldPrev, heldPreview{b, fmt.Sprint(digest(b)["sha1"])})
+			if len(heldPrev) > 64 {
+				heldPrev = heldPrev[1:]
+			}
+			heldMu.Unlock()
 		}
 		JSON(obs, res)
 	})
@@ -632,6 +674,28 @@ func init() {
 		if touched {
 			bad = append(bad, "the conversion modified bytes around the source planes")
 		}
+		// the same image with planes that END at the last sample of the rectangle (length = capacity): nothing lies behind
+		func() {
+			img, _, _, _, _ := buildYCbCr(g, a.Seed, 1)
+			last := img.Rect.Max.Sub(image.Pt(1, 1))
+			tight := func(p []byte, n int) []byte { return append(make([]byte, 0, n), p[:n]...) }
+			img.Y = tight(img.Y, img.YOffset(last.X, last.Y)+1)
+			img.Cb = tight(img.Cb, img.COffset(last.X, last.Y)+1)
+			img.Cr = tight(img.Cr, img.COffset(last.X, last.Y)+1)
+			for name, conv := range map[string]func(){
+				"float32 conversion": func() { d := make([]float32, g.W*g.W); transforms32.ImageToGray(img, &d) },
+				"float64 conversion": func() { d := make([]float64, g.W*g.W); transforms.Rgb2GrayFast(img, &d) },
+			} {
+				func() {
+					defer func() {
+						if p := recover(); p != nil {
+							bad = append(bad, fmt.Sprintf("%s panics on planes that end at the last sample of the rectangle: %v", name, p))
+						}
+					}()
+					conv()
+				}()
+			}
+		}()
 		JSON(obs, map[string]interface{}{"bad": bad, "asm": transforms32.FlagUseASM})
 	})
 }
